@@ -120,6 +120,8 @@ func (f *floatCtx) round32(e *Exec, x string) string {
 		e.axiom(fmt.Sprintf("(and (=> (<= %s %s) (<= (rnd32 %s) (rnd32 %s))) (=> (<= %s %s) (<= (rnd32 %s) (rnd32 %s))))", x, y, x, y, y, x, y, x))
 	}
 	e.axiom(fmt.Sprintf("(=> (and (is_int %s) (<= (- %s) %s) (<= %s %s)) (= %s %s))", x, two24, x, x, two24, r, x))
+	// relative error of rounding to float32 (normal range; 2^-149 absolute in the subnormal range)
+	e.axiom(fmt.Sprintf("(=> (<= (absr %s) 100000000000000000000000000000000000000.0) (and (<= (- %s %s) (+ (* EPS24 (absr %s)) TINY32)) (<= (- %s %s) (+ (* EPS24 (absr %s)) TINY32))))", x, r, x, x, x, r, x))
 	f.r32 = append(f.r32, x)
 	return r
 }
@@ -166,6 +168,19 @@ func (e *Exec) floatBin(op string, a, b Value, t types.Type) Value {
 	if e.discovery {
 		return Value{T: t, S: []string{"0", "0.0"}}
 	}
+	if e.quiet > 0 {
+		// inside a quantifier no lemma instance can be emitted: the value is the same uninterpreted
+		// term the code produces (equal operands give equal results by congruence)
+		k := kindUF(op, a, b)
+		switch op {
+		case "+", "-":
+			return Value{T: t, S: []string{k, "(rnd64 (" + op + " " + fv(a) + " " + fv(b) + "))"}}
+		case "*":
+			return Value{T: t, S: []string{k, "(rnd64 " + realMul(fv(a), fv(b)) + ")"}}
+		case "/":
+			return Value{T: t, S: []string{k, "(fv_div " + fk(a) + " " + fv(a) + " " + fk(b) + " " + fv(b) + ")"}}
+		}
+	}
 	ak, av, bk, bv := fk(a), fv(a), fk(b), fv(b)
 	anan, bnan := fIsNaN(a), fIsNaN(b)
 	finc := "(and " + fIsFin(a) + " " + fIsFin(b) + ")"
@@ -184,7 +199,7 @@ func (e *Exec) floatBin(op string, a, b Value, t types.Type) Value {
 		e.intLemma(op, a, b, res)
 		return res
 	case "*":
-		x := e.nameReal("fx", "(* "+av+" "+bv+")")
+		x := e.nameReal("fx", realMul(av, bv))
 		// valid facts of real arithmetic that spare the solver nonlinear reasoning
 		for _, p := range [][2]string{{av, bv}, {bv, av}} {
 			a, b := p[0], p[1]
@@ -208,7 +223,10 @@ func (e *Exec) floatBin(op string, a, b Value, t types.Type) Value {
 		return res
 	case "/":
 		// exact quotient only meaningful for a non-zero divisor
-		q := e.nameReal("fx", "(/ "+av+" "+bv+")")
+		q := e.nameReal("fx", realDiv(av, bv))
+		// valid facts of real arithmetic about quotients (spare the solver nonlinear reasoning)
+		e.axiom(fmt.Sprintf("(=> (> %s 0.0) (and (=> (>= %s 0.0) (>= %s 0.0)) (=> (<= %s 0.0) (<= %s 0.0)) (=> (<= %s %s) (<= %s 1.0)) (=> (>= %s %s) (>= %s 1.0)) (=> (>= %s (- %s)) (>= %s (- 1.0)))))", bv, av, q, av, q, av, bv, q, av, bv, q, av, bv, q))
+		e.axiom(fmt.Sprintf("(=> (< %s 0.0) (and (=> (>= %s 0.0) (<= %s 0.0)) (=> (<= %s 0.0) (>= %s 0.0)) (=> (>= %s %s) (<= %s 1.0)) (=> (<= %s %s) (>= %s 1.0))))", bv, av, q, av, q, av, bv, q, av, bv, q))
 		nanc := fmt.Sprintf("(or %s %s (and %s %s) (and %s %s))", anan, bnan, fIsInf(a), fIsInf(b), fZero(a), fZero(b))
 		sgn := fmt.Sprintf("(xor %s %s)", fNeg(a), fNeg(b))
 		k := e.define("fk", "Int", kindUF(op, a, b))
@@ -461,6 +479,27 @@ func (f *floatCtx) addInput(e *Exec, k, v string) {
 	}
 	f.inputs = append(f.inputs, fpoint{k, v})
 }
+
+// isRealLit: a numeric literal (linear arithmetic stays interpreted)
+func isRealLit(t string) bool {
+	u := strings.TrimSuffix(strings.TrimPrefix(t, "(- "), ")")
+	if u == "" {
+		return false
+	}
+	for _, c := range u {
+		if !(c >= '0' && c <= '9') && c != '.' {
+			return false
+		}
+	}
+	return true
+}
+
+// realMul / realDiv: products and quotients of two symbolic reals are kept uninterpreted (rmul, rdiv)
+// and constrained by the sign/bound facts emitted at the use site; nonlinear real arithmetic made the
+// solvers time out on goals that only need congruence. Products with a literal stay linear.
+func realMul(a, b string) string { return "(* " + a + " " + b + ")" }
+
+func realDiv(a, b string) string { return "(/ " + a + " " + b + ")" }
 
 func kindUF(op string, a, b Value) string {
 	name := map[string]string{"+": "fk_add", "-": "fk_sub", "*": "fk_mul", "/": "fk_div"}[op]
